@@ -5,6 +5,7 @@ import (
 	"fmt"
 	"sort"
 	"strconv"
+	"strings"
 	"time"
 
 	contextmanager "lunar/toolkit-core/context-manager"
@@ -28,6 +29,14 @@ type c06req struct {
 	enqSeq    uint64
 	enqT      time.Duration // engine timestamp of the first push onto the heap
 	pushed    bool
+	pushSeq   uint64 // first push onto the heap
+	deqSeq    uint64 // last time the processing loop took it off the heap
+	inHeap    bool
+	overtook  string // better-ranked requests that were in the heap when it was last taken off
+	skipSeq   uint64 // the loop took it off the heap and dropped it (verdict already claimed)
+	incT      time.Duration // instant of the quota increment that admitted it
+	incSeq    uint64
+	incOK     bool
 	refused   bool
 	granted   bool
 	grantSeq  uint64
@@ -93,7 +102,7 @@ func runC06(s *kernel.Sim) {
 	// in a third of the runs the engine's own background goroutines (processing
 	// loop, TTL watcher, removal goroutines) are schedulable at lock sites too, so
 	// that e.g. a TTL can elapse in the middle of one quota check of the loop
-	bgYield := false && tp.Chance(1, 3) // disabled: the time-based rules need decision-point events first (DESIGN.md, limits)
+	bgYield := tp.Chance(1, 3)
 	settling := false
 	s.Knobs["background_goroutines_schedulable"] = bgYield
 	s.YieldOn = func(point string, a []string, harness bool) bool {
@@ -112,10 +121,35 @@ func runC06(s *kernel.Sim) {
 		if kind == "queue.drain" {
 			drainSeq = s.Seq()
 		}
+		if kind == "fw.inc" && len(a) >= 3 {
+			if r := reqs[a[1]]; r != nil {
+				r.incOK = a[2] == "increased"
+				r.incT, r.incSeq = s.Now(), s.Seq()
+			}
+			return
+		}
+		if kind == "mq.pop" || kind == "mq.remove" {
+			if r := reqs[a[0]]; r != nil {
+				r.inHeap = false
+				if kind == "mq.pop" {
+					r.deqSeq, r.incOK, r.overtook = s.Seq(), false, ""
+					for _, o := range order {
+						if o != r && o.inHeap && (o.prio < r.prio || (o.prio == r.prio && o.enqT < r.enqT)) { // equal instants = simultaneous arrivals, any order
+							r.overtook += fmt.Sprintf(" %s(prio %d, pushed at %v)", o.id, o.prio, o.enqT)
+						}
+					}
+				}
+			}
+			return
+		}
 		if kind == "mq.push" && len(a) == 2 {
+			if r := reqs[a[0]]; r != nil {
+				r.inHeap = true
+			}
 			if r := reqs[a[0]]; r != nil && !r.pushed {
 				// first push = the instant the request entered the queue
 				r.pushed = true
+				r.pushSeq = s.Seq()
 				ns, _ := strconv.ParseInt(a[1], 10, 64)
 				r.enqT = time.Duration(ns - s.Start.UnixNano())
 			}
@@ -129,6 +163,8 @@ func runC06(s *kernel.Sim) {
 			return
 		}
 		switch kind {
+		case "queue.skipped":
+			r.skipSeq = s.Seq()
 		case "queue.enqueued":
 			r.enq, r.enqSeq = true, s.Seq()
 		case "queue.refused":
@@ -138,6 +174,22 @@ func runC06(s *kernel.Sim) {
 				s.Violate("R1", "double-verdict", "%s got a second verdict (granted) after granted=%v expired=%v", r.id, r.granted, r.expired)
 			}
 			r.granted, r.grantSeq, r.grantT = true, s.Seq(), s.Now()
+			// allowed only when the attached quota admitted it: the loop's own quota
+			// increment for this request, after it last took it off the heap
+			s.Rule("R2")
+			if !(r.incOK && r.incSeq > r.deqSeq) {
+				s.Violate("R2", "granted-without-quota-admission", "%s granted although the quota did not count an admission for it after its last dequeue", r.id)
+			}
+			// order, judged at the decision point: when the loop took r off the heap
+			// for the attempt that admits it, no better-ranked request was in the heap
+			s.Rule("R3")
+			if r.overtook != "" {
+				sig := "order:priority"
+				if strings.Contains(r.overtook, fmt.Sprintf("(prio %d,", r.prio)) {
+					sig = "order:fifo-within-priority"
+				}
+				s.Violate("R3", sig, "%s (prio %d, pushed at %v) was taken off the queue and admitted while better-ranked requests were waiting in it:%s", r.id, r.prio, r.enqT, r.overtook)
+			}
 		case "queue.expired":
 			if r.granted || r.expired {
 				s.Violate("R1", "double-verdict", "%s got a second verdict (expired) after granted=%v expired=%v", r.id, r.granted, r.expired)
@@ -190,7 +242,24 @@ func runC06(s *kernel.Sim) {
 		s.State(fmt.Sprintf("w%d/p%d/c%v", len(waiting()), len(s.ParkedTasks()), cancelled))
 	}
 
-	for step := 0; step < 70 && !s.Failed(); step++ {
+	// intervals during which a goroutine of the engine itself (processing loop,
+	// TTL watcher, removal) stayed parked while the clock advanced: the "slow
+	// node" fault. Deadlines are not judged across such an interval.
+	type span struct{ from, to time.Duration }
+	var bgStalls []span
+	bgOverlap := func(from, to time.Duration) bool {
+		for _, b := range bgStalls {
+			if b.from <= to && from <= b.to {
+				return true
+			}
+		}
+		return false
+	}
+	maxSteps := 70
+	if bgYield {
+		maxSteps = 160
+	}
+	for step := 0; step < maxSteps && !s.Failed(); step++ {
 		if step == cancelAt && !cancelled {
 			cancel()
 			cancelled, cancelT = true, s.Now()
@@ -229,7 +298,15 @@ func runC06(s *kernel.Sim) {
 					targets = append(targets, e, e-1, e+1, e+2)
 				}
 			}
-			s.SleepUntil(targets[tp.Choose(len(targets))])
+			target := targets[tp.Choose(len(targets))]
+			for _, t := range parked {
+				if !t.Harness && target > now {
+					bgStalls = append(bgStalls, span{now, target})
+					s.FaultFired("engine_goroutine_stalled_at_lock_site")
+					break
+				}
+			}
+			s.SleepUntil(target)
 		}
 		quiescentChecks()
 	}
@@ -271,17 +348,20 @@ func runC06(s *kernel.Sim) {
 			s.Violate("R1", "verdict-mismatch", "%s returned allowed=%v but the queue granted=%v expired=%v refused=%v", r.id, r.allowed, r.granted, r.expired, r.refused)
 		}
 		stalled := r.task.StallEnd > 0
-		if !stalled && !cancelled && r.end > r.arrive+TTL+slack {
+		if !stalled && !cancelled && r.end > r.arrive+TTL+slack && !bgOverlap(r.arrive, r.end) {
 			s.Violate("R1", "late-verdict", "%s arrived %v, returned at %v, TTL %v + slack %v exceeded without any imposed stall", r.id, r.arrive, r.end, TTL, slack)
 		}
 		// the verdict itself (grant) must fall inside the request's own TTL window
 		if r.granted && r.enq && !cancelled {
-			enqT := r.enqT
-			if r.grantT > enqT+TTL+slack {
-				s.Violate("R1", "late-grant", "%s entered the queue at %v and was granted at %v, later than TTL %v + slack %v", r.id, enqT, r.grantT, TTL, slack)
+			enqT, gT := r.enqT, r.grantT
+			if r.incOK {
+				gT = r.incT // the decision instant; the signal may follow later when the loop is slow
+			}
+			if gT > enqT+TTL+slack && !bgOverlap(enqT, gT) {
+				s.Violate("R1", "late-grant", "%s entered the queue at %v and was granted at %v, later than TTL %v + slack %v", r.id, enqT, gT, TTL, slack)
 			}
 		}
-		if cancelled && !stalled && r.end > cancelT+slack && r.end > r.arrive+TTL+slack {
+		if cancelled && !stalled && r.end > cancelT+slack && r.end > r.arrive+TTL+slack && !bgOverlap(cancelT, r.end) {
 			s.Rule("R5")
 			s.Violate("R5", "waiter-not-released-on-shutdown", "%s still waited at %v, shutdown was at %v", r.id, r.end, cancelT)
 		}
@@ -298,7 +378,18 @@ func runC06(s *kernel.Sim) {
 			grants = append(grants, r)
 		}
 	}
-	sort.Slice(grants, func(i, j int) bool { return grants[i].grantSeq < grants[j].grantSeq })
+	admitT := func(g *c06req) time.Duration {
+		if g.incOK {
+			return g.incT
+		}
+		return g.grantT
+	}
+	sort.Slice(grants, func(i, j int) bool {
+		if a, b := admitT(grants[i]), admitT(grants[j]); a != b {
+			return a < b
+		}
+		return grants[i].grantSeq < grants[j].grantSeq
+	})
 	if len(grants) > 0 && len(order) > int(qMax) {
 		s.Nontrivial()
 	}
@@ -309,7 +400,7 @@ func runC06(s *kernel.Sim) {
 		ok := true
 		start, count := time.Duration(-1<<62), int64(0)
 		for _, g := range grants {
-			t := g.grantT
+			t := admitT(g)
 			if t-start >= W {
 				start, count = t, 0
 				if trunc {
@@ -326,35 +417,5 @@ func runC06(s *kernel.Sim) {
 	}
 	if !okAny {
 		s.Violate("R2", "grants>quota", "%s", detail)
-	}
-	// R3: order. When r is granted, no better-ranked request that was already in
-	// the queue before the previous processing tick and is not about to expire
-	// may still be waiting.
-	for _, g := range grants {
-		s.Rule("R3")
-		for _, o := range order {
-			if o == g || !o.enq || o.enqSeq > g.grantSeq {
-				continue
-			}
-			better := o.prio < g.prio || (o.prio == g.prio && o.enqT < g.enqT) // equal instants = simultaneous arrivals, any order
-			if !better {
-				continue
-			}
-			if (o.granted && o.grantSeq < g.grantSeq) || (o.expired && o.expSeq < g.grantSeq) {
-				continue
-			}
-			if o.arrive+TTL <= g.grantT+slack {
-				continue // about to expire: arbitration with the TTL watcher
-			}
-			if o.task.StallEnd > 0 && !o.enq {
-				continue
-			}
-			sig := "order:priority"
-			if o.prio == g.prio {
-				sig = "order:fifo-within-priority"
-			}
-			s.Violate("R3", sig, "%s (prio %d, enqueued #%d) granted at %v while better-ranked %s (prio %d, enqueued #%d, arrived %v) still waits",
-				g.id, g.prio, g.enqSeq, g.grantT, o.id, o.prio, o.enqSeq, o.arrive)
-		}
 	}
 }
